@@ -64,10 +64,15 @@ impl OpenOptions {
     /// Trying to open an existing database with the incorrect page size will result in a panic.
     ///
     /// # Panics
-    /// Will panic if you try to set the pagesize < 1024 bytes.
+    /// Will panic if you try to set the pagesize < 1024 bytes, or to a value that is not a multiple of 8.
     pub fn pagesize(mut self, pagesize: u64) -> Self {
         if pagesize < 1024 {
             panic!("Pagesize must be 1024 bytes minimum");
+        }
+        // Pages are accessed in place through 8-byte aligned structures, so every page
+        // must start on an 8-byte boundary.
+        if pagesize % 8 != 0 {
+            panic!("Pagesize must be a multiple of 8 bytes");
         }
         self.pagesize = pagesize;
         self
